@@ -59,10 +59,11 @@ def run(ctx):
         b = F.fn("EventIdGenerator::next")
         bad = []
         # assignments to local `millis`
-        mloc = [i for i, l in enumerate(b.locals) if l.get("n") == "millis"]
-        if len(mloc) != 1:
-            raise AnchorMissing("local millis")
-        ml = mloc[0]
+        # the working millisecond: the user variable that receives current_millis() first
+        cm = [c_ for c_ in b.find_calls(r"event_id::current_millis$")]
+        if len(cm) != 1 or len(cm[0].dest) != 1:
+            raise AnchorMissing("current_millis() call")
+        ml = cm[0].dest[0]
         pins = []
         for blk in b.live_blocks():
             for s in b.blocks[blk]["s"]:
@@ -171,10 +172,15 @@ def run(ctx):
             return out
         table = {}
         for s in shl:
-            a_names = {b.local_name(x) for x in b._origin_locals(s["v"]["a"])} - {None}
+            wa = wide_all(b, s["v"]["a"])
+            who = None
+            if any(c_.dest and c_.dest[0] in wa for c_ in b.find_calls(r"saturating_sub$")):
+                who = "timestamp_component"
+            elif 2 in wa:   # parameter shard_id
+                who = "shard_component"
             rhs = items(s["v"]["b"]) | ({s["v"]["b"]["item"].split("::")[-1]} if "item" in s["v"]["b"] else set())
-            for n in a_names:
-                table[n] = rhs
+            if who and "1_u64" not in str(s["v"]["a"].get("k", "")):
+                table[who] = rhs
         inst.sites.append("shifts: %s" % {k: sorted(v) for k, v in table.items()})
         if table.get("timestamp_component") != {"SHARD_ID_BITS", "SEQUENCE_BITS"}:
             bad.append(("timestamp-shift", "timestamp component is shifted by %s (expected SHARD_ID_BITS + SEQUENCE_BITS)" % sorted(table.get("timestamp_component", [])), None))
